@@ -387,7 +387,7 @@ class ProcessingItemBase:
         if issubclass(transformation_class, ExternalSourceBaseTransformation):
             params["allow_external_sources"] = allow_external_sources
         if transformation_class is NestedQueryPostprocessingTransformation and isinstance(
-            params.get("items"), list
+            params.get("items"), (list, tuple)
         ):
             # The nested items are subject to the same template variable settings as the item
             # that contains them, whatever the definition says.
